@@ -226,11 +226,41 @@ def run(ctx, progs):
                 touched.setdefault(strip_generics(s["body"].root) if s["body"].kind == "Closure" and s["body"].root else s["body"].key, s)
             for p in problems:
                 ctx.ob("R4.3.classified", f"{p['body'].key}|{p['kind']}", False, p["body"].where(p["ln"]), "memory access with unclassifiable pointer (fail closed)")
+        by_key = {}
+        for role in ("dst", "src"):
+            for s2 in tracking.accesses(prog, eff, role)[0]:
+                k2 = strip_generics(s2["body"].root) if s2["body"].kind == "Closure" and s2["body"].root else s2["body"].key
+                by_key.setdefault(k2, []).append(s2)
+
+        def generic_mover(key):
+            """A function the table does not know (new API): accepted when every access in it goes through the guard of ITS OWN
+            accessor (self) and moves at most that accessor's length — then it cannot touch a byte outside what it names
+            (C01 containment + C17 guard length); what it reports to its caller is not judged."""
+            ss = by_key.get(key, [])
+            if not ss:
+                return None
+            for s2 in ss:
+                o = s2["origin"]
+                if o[0] != 'guard' or effects.base_of(o[1])[:2] != ('param', 1):
+                    return None
+                cnt = s2["count"]
+                if cnt is None:
+                    return None
+                b2 = s2["body"]
+                own_len = [eff.inline(('call', 'volatile_memory::VolatileSlice::<\'a, B>::len', (('param', 1, b2.local_name(1)),), ()))]
+                c1 = eff.inline(cnt)
+                ok_cnt = any(unref(c1) == unref(x) for x in own_len) or (unref(c1)[0] == 'field' and unref(c1)[2] == 'size' and effects.base_of(unref(c1)[1])[:2] == ('param', 1)) or \
+                    (is_call(unref(c1), "cmp::min") and any(unref(x)[0] == 'field' and unref(x)[2] == 'size' and effects.base_of(unref(x)[1])[:2] == ('param', 1) for x in (eff.inline(y) for y in unref(c1)[2])))
+                if not ok_cnt:
+                    return None
+            return "not in the table: every access goes through self's own guard and moves at most self.len() bytes"
         for key, s in sorted(touched.items()):
             why = None
             for rx, reason in MAY_TOUCH:
                 if re.search(rx, key):
                     why = reason
+            if why is None:
+                why = generic_mover(key)
             ctx.ob("R4.3.who_may_touch", key, why is not None, s["body"].where(s["ln"]),
                    f"{s['kind']} on guest memory — " + (why if why else "this body is not one of the enumerated primitives: a new route that bypasses them needs its own review (bounds, counts, marks, guards)"))
         ctx.floor("R4.3.touching_bodies", len(touched), 9)
